@@ -114,8 +114,7 @@ def build(verbose=False):
             return st
         tv = os.path.join(COQ, "theories", "Gen", "Tables.v")
         st.tables_digest = hashlib.sha256(open(tv, "rb").read()).hexdigest()[:16]
-        if not os.path.exists(os.path.join(COQ, "Makefile")):
-            sh("coq_makefile -f _CoqProject -o Makefile", cwd=COQ)
+        sh(["python3", os.path.join(VERIF, "tools", "gen_coqproject.py")])
         rc, out = sh("timeout 3000 make -k -j16 2>&1", cwd=COQ, timeout=3100)
         st.make_log = out
         if rc != 0:
